@@ -557,6 +557,43 @@ def check_k6_k7(chk, m, cfg):
     bad = set(c.callee for c in fe.calls() if c.callee and not c.callee.startswith("llvm.") and c.callee not in allowed)
     chk.ob("K7.delivery", "console_eval[%s]" % cfg, not bad,
            "console_eval only feeds the ring and wakes the console fibre (other calls: %s)" % sorted(bad), fe.loc, fe.name)
+    # the injection index moves past a character only on a segment where the ring accepted exactly that character
+    from . import fib as _fib
+    L, _, _, _ = layout(m)
+    if "eval_index" not in L:
+        chk.unknown("K7.eval-advance", "console_eval[%s]" % cfg, "no eval_index field: the injection index is not modelled")
+        return
+    ca = carg(fe)
+    idx_ptr = paths.mkptr(("arg", ca), L["eval_index"][0])
+    n_adv = 0
+    for s0, p in paths.enumerate_segments(fe, m):
+        for k, e in enumerate(p.events):
+            if e.kind != "store" or e.ptr != idx_ptr:
+                continue
+            v = strip_casts(e.val)
+            if v[0] == "c" and v[2] == 0:
+                continue                                    # *i = 0 at the start
+            sid = "console_eval[%s] %s..%s" % (cfg, s0.lstrip("%"), p.end)
+            if not (v[0] == "b" and v[1] == "add" and v[4][0] == "c" and v[4][2] == 1 and strip_casts(v[3])[0] == "ld"
+                    and strip_casts(v[3])[1] == idx_ptr):
+                chk.unknown("K7.eval-advance", sid, "the injection index is assigned %s" % fmt(e.val)[:60], e.inst.loc)
+                continue
+            n_adv += 1
+            old = strip_casts(v[3])
+            prev = max([j for j, x in enumerate(p.events[:k]) if x.kind == "store" and x.ptr == idx_ptr], default=-1)
+            accepted = []
+            for j, c, truth in _fib.cond_truth_of_call(p, "ringbuf_put"):
+                if prev < j < k and truth is True and len(c.args) > 1:
+                    # the character offered is cmd[old index]
+                    ch = strip_casts(c.args[1])
+                    if ch[0] == "ld" and any(strip_casts(ve)[0] == "ld" and strip_casts(ve)[1] == idx_ptr for ve, sc in ptr_parts(ch[1])[2]):
+                        accepted.append(j)
+            chk.ob("K7.eval-advance", sid, len(accepted) == 1,
+                   "the index moves to the next character only after ringbuf_put accepted the current one on this segment" if len(accepted) == 1
+                   else "the index is advanced although no ringbuf_put of the current character is known to have succeeded on this "
+                        "segment (%d accepted): a character the ring refused is dropped and a different line is executed" % len(accepted),
+                   e.inst.loc, fe.name)
+    chk.expect("K7", "index advances in console_eval [%s]" % cfg, n_adv, 1)
 
 
 SPACES = (32, 9, 10, 11, 12, 13)
